@@ -438,14 +438,89 @@ fn gen_tiny(_t: Tier) -> Box<dyn Iterator<Item = Vec<u64>>> {
     }))
 }
 
+/// Page sizes at the top of the range (a bitmap then has 0..4 pages whatever its byte size):
+/// the page-count and page-index arithmetic must not overflow.
+fn run_huge(t: &mut Tape, cx: &mut Cx) -> Result<(), String> {
+    const H: usize = 1 << 63;
+    let page = t.pick(&[usize::MAX, usize::MAX - 1, H, H + 1, H - 1, usize::MAX / 2, usize::MAX / 3, 1usize << 62]);
+    let byte_size = match t.below(9) {
+        0 => 0,
+        1 => 1,
+        2 => 2,
+        3 => 4096,
+        4 => page - 1,
+        5 => page,
+        6 => page.saturating_add(1),
+        7 => usize::MAX,
+        _ => H + 5,
+    };
+    note!(cx, "new(byte_size {:#x}, page {:#x})", byte_size, page);
+    cx.nt("huge_page_size");
+    let mut b = AtomicBitmap::new(byte_size, NonZeroUsize::new(page).unwrap());
+    let mut m = Model::new(byte_size, page);
+    m.pages = ((byte_size as u128 + page as u128 - 1) / page as u128) as usize;
+    compare(&b, &m, "fresh bitmap")?;
+    for step in 0..(1 + t.idx(8)) {
+        if t.exhausted() && step > 0 {
+            break;
+        }
+        match t.below(6) {
+            0 | 1 | 2 => {
+                let s = t.pick(&[0usize, 1, page - 1, page, page.saturating_add(1), usize::MAX - 1, usize::MAX, byte_size.saturating_sub(1), byte_size]);
+                let l = t.pick(&[0usize, 1, 2, page, usize::MAX, page - 1]);
+                let set = t.flag();
+                note!(cx, "{}({:#x},{:#x})", if set { "mark_dirty" } else { "reset_addr_range" }, s, l);
+                if set {
+                    if t.flag() { b.mark_dirty(s, l) } else { b.set_addr_range(s, l) }
+                } else {
+                    b.reset_addr_range(s, l);
+                }
+                m.mark(s, l, set);
+            }
+            3 => {
+                let i = t.pick(&[0usize, 1, 2, 3, usize::MAX]);
+                let set = t.flag();
+                note!(cx, "{}({:#x})", if set { "set_bit" } else { "reset_bit" }, i);
+                if set { b.set_bit(i) } else { b.reset_bit(i) }
+                m.bit(i, set);
+            }
+            4 => {
+                let add = t.pick(&[0usize, 1, page - 1, page, 4096]);
+                if let Some(nb) = m.byte_size.checked_add(add) {
+                    note!(cx, "enlarge({:#x})", add);
+                    b.enlarge(add);
+                    m.byte_size = nb;
+                    m.pages = ((nb as u128 + page as u128 - 1) / page as u128) as usize;
+                    cx.nt("enlarge");
+                }
+            }
+            _ => {
+                note!(cx, "clone / get_and_reset");
+                let c = b.clone();
+                compare(&c, &m, "clone")?;
+                let words = b.get_and_reset();
+                ensure!(words.len() == m.pages.div_ceil(64), "get_and_reset returned {} words for {} pages", words.len(), m.pages);
+                for p in 0..64usize.min(words.len() * 64) {
+                    let got = words[p / 64] >> (p % 64) & 1 == 1;
+                    ensure!(got == m.set.contains(&p), "get_and_reset reports page {} as {}, model {}", p, got, m.set.contains(&p));
+                }
+                m.set.clear();
+            }
+        }
+        compare(&b, &m, &format!("after step {}", step))?;
+    }
+    Ok(())
+}
+
 pub fn property() -> Property {
     Property {
         id: "C09",
-        rule: "a case = (byte size, page size) from {0, 1, k*page+-delta, 63/64/65/127/128/129 pages +- delta} x {1,2,3,7,64,100,128,4096, random, larger than the byte size} + a history of 1..40 operations (set/reset_addr_range, mark_dirty, set/reset_bit, get_and_reset, reset, enlarge, clone then ops on either copy, RefSlice/ArcSlice slice_at nested up to 3 deep with marks and queries through the slice, (), None, Some(bitmap)); after every step every bitmap is compared with its set model over all indices < pages+70 and at page-first/last addresses; non-trivial = a range spanning >=2 pages / crossing a 64-page word / running past the end / overflowing usize, a bit at or past the end, a non-empty harvest, an enlarge, a clone or a (nested) slice; distinct = decoded (dimensions, history)",
+        rule: "a case = (byte size, page size) from {0, 1, k*page+-delta, 63/64/65/127/128/129 pages +- delta} x {1,2,3,7,64,100,128,4096, random, larger than the byte size; a separate sub-check uses page sizes around 2^62, 2^63 and usize::MAX with byte sizes up to usize::MAX} + a history of 1..40 operations (set/reset_addr_range, mark_dirty, set/reset_bit, get_and_reset, reset, enlarge, clone then ops on either copy, RefSlice/ArcSlice slice_at nested up to 3 deep with marks and queries through the slice, (), None, Some(bitmap)); after every step every bitmap is compared with its set model over all indices < pages+70 and at page-first/last addresses; non-trivial = a range spanning >=2 pages / crossing a 64-page word / running past the end / overflowing usize, a bit at or past the end, a non-empty harvest, an enlarge, a clone or a (nested) slice; distinct = decoded (dimensions, history)",
         assumptions: &["enlarge sizes are VMM-chosen: sums overflowing usize or exceeding 20000 pages are excluded (counted)", "slice offsets whose sum wraps are not compared (BaseSlice documents wrapping arithmetic); the model is re-synchronised and the event counted"],
         subchecks: vec![
             SubCheck { name: "tiny_domain", builds: &[Build::Std], kind: Kind::Exhaustive { gen: gen_tiny }, run: run_tiny },
-            SubCheck { name: "history", builds: &[Build::Std], kind: Kind::Random { quick: 40_000, thorough: 2_000_000, max_words: 220 }, run }
+            SubCheck { name: "history", builds: &[Build::Std], kind: Kind::Random { quick: 40_000, thorough: 2_000_000, max_words: 220 }, run },
+            SubCheck { name: "huge_pages", builds: &[Build::Std], kind: Kind::Random { quick: 2_000, thorough: 100_000, max_words: 60 }, run: run_huge }
         ],
     }
 }
